@@ -9,7 +9,14 @@ Extracted (fail closed on any other shape):
     delegate to astropy `writeto(..., overwrite=False)` (= raises) -> Raise | Skip | Overwrite
   * save_to_files: the `match extension` dispatch (writer or NotImplementedError per format), its
     `overwrite` default and whether run_pipeline passes `overwrite`
-  * Outputs.save_to_file: the `save_methods` table; the extension of each to_* template
+  * Outputs.save_to_file: the `save_methods` table; the extension of each to_* template; whether it
+    uses the first item of each dict only or loops over `dct.items()`; whether the per-bucket result
+    replaces (`all_filenames[k] = v`) or merges (`all_filenames.setdefault(k, {}).update(v)`)
+  * Outputs.build_filenames: reads no attribute of `self` other than `save_data_to_file` (so nothing
+    remembered from an earlier call can enter), iterates it directly, two f-string templates
+    detector_{bucket}.{ext} / detector_{bucket}_{suffix}.{ext}
+  * Observation._run_single_pipeline: the `outputs=` argument of its run_pipeline call (self.outputs | None)
+  * run_pipelines_with_dask: the "outputs" entry of the kwargs given to apply_ufunc (outputs | deepcopy(outputs))
 """
 from __future__ import annotations
 
@@ -156,6 +163,11 @@ def writer_behaviour(fn: ast.FunctionDef) -> str:
     return "Overwrite"
 
 
+def _guarded_by_overwrite(fn: ast.FunctionDef) -> bool:
+    tests = [st for st in fn.body if isinstance(st, ast.If) and _has_exists_call(st.test)]
+    return bool(tests) and isinstance(tests[0].test, ast.BoolOp)
+
+
 def old_ext(fn: ast.FunctionDef) -> str:
     exts = set()
     for n in ast.walk(fn):
@@ -258,12 +270,198 @@ def old_dispatch(repo: Path):
     return table
 
 
+# ------------------------------------------------------------------------------------------ state / flow shape
+
+
+def _self_attrs(fn: ast.FunctionDef) -> set[str]:
+    return {n.attr for n in ast.walk(fn) if isinstance(n, ast.Attribute) and _is_name(n.value, "self")}
+
+
+def check_build_filenames(repo: Path) -> None:
+    """build_filenames must be a pure function of self.save_data_to_file and its argument."""
+    tree = parse(repo, "pyxel/outputs/outputs.py")
+    fn = find_func(tree, "build_filenames", cls="Outputs")
+    attrs = _self_attrs(fn)
+    if attrs - {"save_data_to_file"}:
+        fail(fn, f"build_filenames reads/writes other attributes of self: {sorted(attrs - {'save_data_to_file'})}")
+    for n in ast.walk(fn):
+        if isinstance(n, (ast.Global, ast.Nonlocal)):
+            fail(n, "build_filenames must not use global/nonlocal state")
+    loops = [n for n in body_no_doc(fn) if isinstance(n, ast.For)]
+    aliases = {st.targets[0].id for st in body_no_doc(fn)
+               if isinstance(st, ast.Assign) and len(st.targets) == 1 and isinstance(st.targets[0], ast.Name)
+               and ast.unparse(st.value) == "self.save_data_to_file"}
+    if len(loops) != 1 or not (ast.unparse(loops[0].iter) == "self.save_data_to_file"
+                               or (isinstance(loops[0].iter, ast.Name) and loops[0].iter.id in aliases)):
+        fail(fn, "build_filenames must iterate `self.save_data_to_file` in one top-level for loop")
+    templates = []
+    for n in ast.walk(fn):
+        if isinstance(n, ast.JoinedStr):
+            templates.append(tuple(v.value for v in n.values if isinstance(v, ast.Constant)))
+    if sorted(templates) != [("detector_", "."), ("detector_", "_", ".")]:
+        fail(fn, f"build_filenames: unexpected file name templates {templates}")
+
+
+def seq_new_stage(repo: Path) -> bool:
+    tree = parse(repo, "pyxel/observation/observation.py")
+    fn = find_func(tree, "_run_single_pipeline", cls="Observation")
+    calls = [n for n in ast.walk(fn) if isinstance(n, ast.Call) and _is_name(n.func, "run_pipeline")]
+    if len(calls) != 1 or calls[0].args:
+        fail(fn, "_run_single_pipeline must call run_pipeline once, with keywords")
+    kw = {k.arg: k.value for k in calls[0].keywords}
+    if "output_filename_suffix" in kw:
+        fail(calls[0], "_run_single_pipeline: run_pipeline(output_filename_suffix=...) is not a known shape")
+    v = kw.get("outputs")
+    saves = [n for n in ast.walk(fn) if isinstance(n, ast.Call) and isinstance(n.func, ast.Attribute)
+             and n.func.attr == "save_to_file"]
+    if len(saves) != 1:
+        fail(fn, "_run_single_pipeline must call outputs.save_to_file once")
+    skw = {k.arg: k.value for k in saves[0].keywords}
+    if "run_number" not in skw or ast.unparse(skw["run_number"]) != "param_item.run_index":
+        fail(saves[0], "save_to_file must be called with run_number=param_item.run_index")
+    if isinstance(v, ast.Attribute) and _is_name(v.value, "self") and v.attr == "outputs":
+        return True
+    if isinstance(v, ast.Constant) and v.value is None:
+        return False
+    fail(calls[0], "run_pipeline(outputs=...) must be self.outputs or None")
+
+
+def old_items_and_merge(repo: Path) -> tuple[bool, bool]:
+    tree = parse(repo, "pyxel/outputs/outputs.py")
+    fn = find_func(tree, "save_to_file", cls="Outputs")
+    outer = [n for n in fn.body if isinstance(n, ast.For)]
+    if len(outer) != 1:
+        fail(fn, "Outputs.save_to_file must have one top-level for loop")
+    flat = ("item for dct in self.save_data_to_file for item in dct.items()",
+            "(k, v) for dct in self.save_data_to_file for k, v in dct.items()")
+    if isinstance(outer[0].iter, (ast.ListComp, ast.GeneratorExp)):
+        # for valid_name, format_list in [item for dct in self.save_data_to_file for item in dct.items()]:
+        if ast.unparse(outer[0].iter)[1:-1] not in flat \
+                or ast.unparse(outer[0].target) != "(valid_name, format_list)":
+            fail(outer[0], "unknown flattened loop over the items of save_data_to_file")
+        return True, _old_store(outer[0])
+    if not (isinstance(outer[0].iter, ast.Attribute) and _is_name(outer[0].iter.value, "self")
+            and outer[0].iter.attr == "save_data_to_file" and _is_name(outer[0].target, "dct")):
+        fail(fn, "Outputs.save_to_file must loop `for dct in self.save_data_to_file`")
+    first = [n for n in ast.walk(outer[0]) if isinstance(n, ast.Assign) and isinstance(n.targets[0], ast.Tuple)
+             and any(isinstance(e, ast.Starred) for e in n.targets[0].elts)
+             and ast.unparse(n.value) == "dct.items()"]
+    inner = [n for n in outer[0].body if isinstance(n, ast.For) and ast.unparse(n.iter) == "dct.items()"]
+    if len(first) == 1 and not inner:
+        if ast.unparse(first[0].targets[0]) != "(first_item, *_)":
+            fail(first[0], "unexpected unpacking of dct.items()")
+        all_items = False
+        scope = outer[0]
+    elif len(inner) == 1 and not first:
+        if ast.unparse(inner[0].target) != "(valid_name, format_list)":
+            fail(inner[0], "inner loop must be `for valid_name, format_list in dct.items()`")
+        all_items = True
+        scope = inner[0]
+    else:
+        fail(outer[0], "Outputs.save_to_file: neither the first-item shape nor a loop over dct.items()")
+    return all_items, _old_store(scope)
+
+
+def _old_store(scope) -> bool:
+    """True if the per-bucket result is merged into all_filenames, False if it replaces the entry."""
+    stores = []
+    for n in ast.walk(scope):
+        if isinstance(n, ast.Assign) and isinstance(n.targets[0], ast.Subscript) \
+                and _is_name(n.targets[0].value, "all_filenames"):
+            stores.append(("replace", ast.unparse(n)))
+        if isinstance(n, ast.Call) and isinstance(n.func, ast.Attribute) and n.func.attr in ("update", "setdefault") \
+                and "all_filenames" in ast.unparse(n.func.value):
+            if n.func.attr == "update":
+                stores.append(("merge", ast.unparse(n)))
+    if len(stores) != 1:
+        fail(scope, f"Outputs.save_to_file: expected one store into all_filenames, found {stores}")
+    kind, text = stores[0]
+    if kind == "replace":
+        if text != "all_filenames[valid_name] = partial_filenames":
+            fail(scope, f"unknown store {text}")
+        return False
+    if text != "all_filenames.setdefault(valid_name, {}).update(partial_filenames)":
+        fail(scope, f"unknown store {text}")
+    return True
+
+
+def dask_snapshot(repo: Path) -> bool:
+    tree = parse(repo, "pyxel/observation/observation_dask.py")
+    fn = find_func(tree, "run_pipelines_with_dask")
+    calls = [n for n in ast.walk(fn) if isinstance(n, ast.Call) and ast.unparse(n.func) == "xr.apply_ufunc"]
+    if len(calls) != 1:
+        fail(fn, "run_pipelines_with_dask must call xr.apply_ufunc once")
+    kw = {k.arg: k.value for k in calls[0].keywords}
+    d = kw.get("kwargs")
+    if not isinstance(d, ast.Dict):
+        fail(calls[0], "apply_ufunc(kwargs=...) must be a dict display")
+    ent = {k.value: v for k, v in zip(d.keys, d.values) if isinstance(k, ast.Constant)}
+    if "outputs" not in ent:
+        fail(d, 'apply_ufunc kwargs must have an "outputs" entry')
+    v = ent["outputs"]
+    if _is_name(v, "outputs"):
+        return False
+    if ast.unparse(v) in ("deepcopy(outputs)", "copy.deepcopy(outputs)"):
+        return True
+    fail(v, 'the "outputs" entry must be `outputs` or `deepcopy(outputs)`')
+
+
 def coq_str(s: str) -> str:
     assert all(32 <= ord(c) < 127 and c != '"' for c in s), s
     return '"' + s + '"'
 
 
-def render(excl: bool, writers, new_tab, old_tab, exts) -> str:
+def auto_number(utils_tree) -> tuple[int, int]:
+    """apply_run_number: (step added to the largest number found, number used when nothing matches)."""
+    fn = find_func(utils_tree, "apply_run_number")
+    inner = [n for n in fn.body if isinstance(n, ast.FunctionDef) and n.name == "get_number"]
+    if len(inner) != 1:
+        fail(fn, "apply_run_number must define get_number")
+    gsrc = ast.unparse(inner[0])
+    if "re.search('\\\\d+$', string.split('.')[-2])" not in gsrc or "return 0" not in gsrc \
+            or "int(search.group())" not in gsrc:
+        fail(inner[0], "get_number: unknown shape")
+    assigns = {}
+    for n in ast.walk(fn):
+        if isinstance(n, (ast.Assign, ast.AnnAssign)):
+            tgt = n.target if isinstance(n, ast.AnnAssign) else n.targets[0]
+            if isinstance(tgt, ast.Name) and n.value is not None:
+                assigns.setdefault(tgt.id, []).append(n.value)
+    want = {"path_str_for_glob": ["template_str.replace('?', '*')"], "dir_list": ["glob(path_str_for_glob)"],
+            "num_list": ["sorted((get_number(d) for d in dir_list))"]}
+    for k, v in want.items():
+        if [ast.unparse(x) for x in assigns.get(k, [])] != v:
+            fail(fn, f"apply_run_number: `{k}` must be {v[0]}")
+    nx = assigns.get("next_num", [])
+    if len(nx) != 2:
+        fail(fn, "apply_run_number: two assignments of next_num expected")
+    step = first = None
+    for v in nx:
+        if isinstance(v, ast.BinOp) and isinstance(v.op, ast.Add) and ast.unparse(v.left) == "num_list[-1]" \
+                and isinstance(v.right, ast.Constant) and isinstance(v.right.value, int) \
+                and not isinstance(v.right.value, bool) and v.right.value >= 0:
+            step = v.right.value
+        elif isinstance(v, ast.Constant) and isinstance(v.value, int) and not isinstance(v.value, bool) and v.value >= 0:
+            first = v.value
+        else:
+            fail(v, "next_num must be `num_list[-1] + <int>` or an int literal")
+    if step is None or first is None:
+        fail(fn, "apply_run_number: next_num shapes")
+    ifs = [n for n in ast.walk(fn) if isinstance(n, ast.If) and ast.unparse(n.test) == "num_list"]
+    if len(ifs) != 1 or "num_list[-1]" not in ast.unparse(ifs[0].body[0]):
+        fail(fn, "apply_run_number: `if num_list:` must select the largest-number branch")
+    fmt_calls = [ast.unparse(n) for n in ast.walk(fn) if isinstance(n, ast.Call) and isinstance(n.func, ast.Attribute)
+                 and n.func.attr == "format"]
+    if sorted(fmt_calls) != ["path_str.format(next_num)", "path_str.format(run_number + 1)"]:
+        fail(fn, f"apply_run_number: unexpected format calls {fmt_calls}")
+    return step, first
+
+
+def cb(b: bool) -> str:
+    return 'true' if b else 'false'
+
+
+def render(excl: bool, writers, new_tab, old_tab, exts, flags, auto=(1, 1)) -> str:
     ws = "; ".join(f"({coq_str(w)}, {b})" for w, b in writers)
     nt = "; ".join(f"({FMT[k]}, {'None' if w is None else 'Some ' + coq_str(w)})" for k, w in new_tab)
     ot = "; ".join(f"({FMT[k]}, {coq_str(w)})" for k, w in old_tab)
@@ -276,7 +474,10 @@ def render(excl: bool, writers, new_tab, old_tab, exts) -> str:
             f"  t_writers := [{ws}];\n"
             f"  t_new := [{nt}];\n"
             f"  t_old := [{ot}];\n"
-            f"  t_old_ext := [{et}] |}}.\n")
+            f"  t_old_ext := [{et}];\n"
+            f"  t_seq_new_stage := {cb(flags[0])}; t_old_all_items := {cb(flags[1])};\n"
+            f"  t_old_merge := {cb(flags[2])}; t_dask_snapshot := {cb(flags[3])} |}}.\n"
+            f"Definition src_auto : auto_cfg := {{| a_step := {int(auto[0])}; a_first := {int(auto[1])} |}}.\n")
 
 
 def translate(repo: Path) -> str:
@@ -291,23 +492,28 @@ def translate(repo: Path) -> str:
     for w in NEW_WRITERS:
         fn = find_func(utils, w)
         b = writer_behaviour(fn)
-        if ow and b == "Skip":
+        if ow and b in ("Skip", "Raise") and _guarded_by_overwrite(fn):
             b = "Overwrite"          # the existence test is disabled by overwrite=True
         writers.append((w, b))
     new_tab = new_dispatch(find_func(utils, "save_to_files"))
     old_tab = old_dispatch(repo)
-    return render(excl, writers, new_tab, old_tab, exts)
+    check_build_filenames(repo)
+    all_items, merge = old_items_and_merge(repo)
+    flags = (seq_new_stage(repo), all_items, merge, dask_snapshot(repo))
+    return render(excl, writers, new_tab, old_tab, exts, flags, auto_number(utils))
 
 
+# the text for the unchanged tree (C19-F17a/b/c/d repaired)
 FALLBACK = render(
     True,
-    [("to_fits", "Raise"), ("to_hdf", "Overwrite"), ("to_npy", "Raise"), ("to_txt", "Overwrite"),
-     ("to_csv", "Overwrite"), ("to_png", "Raise"), ("to_jpg", "Raise"),
-     ("write_to_fits", "Skip"), ("write_to_jpg", "Skip"), ("write_to_npy", "Skip")],
+    [("to_fits", "Raise"), ("to_hdf", "Raise"), ("to_npy", "Raise"), ("to_txt", "Raise"),
+     ("to_csv", "Raise"), ("to_png", "Raise"), ("to_jpg", "Raise"),
+     ("write_to_fits", "Raise"), ("write_to_jpg", "Raise"), ("write_to_npy", "Raise")],
     [("fits", "write_to_fits"), ("npy", "write_to_npy"), ("hdf", None), ("txt", None), ("csv", None),
      ("png", None), ("jpg", "write_to_jpg"), ("jpeg", "write_to_jpg")],
     [("fits", "to_fits"), ("hdf", "to_hdf"), ("npy", "to_npy"), ("txt", "to_txt"), ("csv", "to_csv"),
      ("png", "to_png"), ("jpg", "to_jpg"), ("jpeg", "to_jpg")],
     [("to_fits", "fits"), ("to_hdf", "h5"), ("to_npy", "npy"), ("to_txt", "txt"), ("to_csv", "csv"),
      ("to_png", "png"), ("to_jpg", "jpg")],
+    (False, True, True, True),
 )
